@@ -55,7 +55,11 @@ class Run:
             ws = a.split()
             if ws[0] == "start":
                 kind = ws[1]
-                op = {"kind": kind, "spec": norm_tmo(ws[2:]) if kind == "get" else ws[2:], "obj": None, "start": k}
+                spec = ws[2:]
+                if kind == "get" and spec == ["d"]:
+                    # Pool::get(): the pool-level timeouts of the configuration
+                    spec = list(self.cfg.get("pt", "nnn"))
+                op = {"kind": kind, "spec": norm_tmo(spec) if kind == "get" else spec, "obj": None, "start": k}
                 if kind in ("ret", "take"):
                     op["obj"] = ws[2]
                 if kind == "resize":
